@@ -254,10 +254,10 @@ def judge_bs(case) -> Outcome:
             return
         rows = np.ones(len(xv), bool)
         xe = np.clip(xv, lo, hi) if ext == "clip" else xv
-        if lower_over:  # convention rows: at/below an over-multiplied lower bound
-            rows &= ~(xe <= lo)
+        if lower_over:  # convention rows: at an over-multiplied lower bound (under `extend` the continuation beyond it is defined)
+            rows &= ~((xe <= lo) if ext != "extend" else (xe == lo))
         if upper_over:
-            rows &= ~(xe >= hi)
+            rows &= ~((xe >= hi) if ext != "extend" else (xe == hi))
         if not np.allclose(Mx[rows], Rr[rows], atol=atol, rtol=1e-7, equal_nan=True):
             bad = np.argwhere(~np.isclose(Mx, Rr, atol=atol, rtol=1e-7, equal_nan=True) & rows[:, None])
             r = bad[0][0]
